@@ -651,6 +651,54 @@ def _all_pairs_angle_search(ctx, f, r: Result, ext, masks):
     def undecided(why):
         ctx.undecidable("C10.8", ext, f"angle/all-pairs search: {why}")
     comp = ext.data["args"][0]
+    # `for i, pose_i in enumerate(poses[a:b])`: the counter and the element
+    # expressed through the canonical index variable of `for i in range(..)`
+    rws = []
+    for le in r.of_kind("loop"):
+        it_ = le.data["iter"]
+        if not (is_call_to(it_, "builtins.enumerate") and it_.args[1]):
+            continue
+        x = it_.args[1][0]
+        start = it_.args[1][1] if len(it_.args[1]) > 1 else dict(
+            it_.args[2]).get("start")
+        lo, hi = 0, 0
+        base = x
+        if x.op == "sub" and x.args[1].op == "slice" and \
+                x.args[1].args[2] is tm.NONE:
+            a_, b_, _ = x.args[1].args
+            if a_ is not tm.NONE:
+                if not (tm.is_const(a_) and type(a_.args[1]) is int and
+                        a_.args[1] >= 0):
+                    continue
+                lo = a_.args[1]
+            if b_ is not tm.NONE:
+                if not (tm.is_const(b_) and type(b_.args[1]) is int and
+                        b_.args[1] < 0):
+                    continue
+                hi = b_.args[1]
+            base = x.args[0]
+        if base is not POSES or (start is not None and
+                                 not tm.is_const(start)):
+            continue
+        n_ = tm.call(tm.glob("builtins.len"), (POSES,), ())
+        cnt = n_ if hi - lo == 0 else T("binop", "Sub", n_, const(lo - hi))
+        l_ = le.data["lid"]
+        k = T("elem", tm.call(tm.glob("builtins.range"), (cnt,), ()), l_)
+        cnt_term = T("index", l_) if start is None else \
+            T("binop", "Add", T("index", l_), start)
+        s_ = 0 if start is None else start.args[1]
+        rws.append((cnt_term, k if s_ == 0 else T("binop", "Add", k,
+                                                  const(s_))))
+        rws.append((T("elem", x, l_), tm.sub(
+            POSES, k if lo == 0 else T("binop", "Add", k, const(lo)))))
+    if rws:
+        def rw(t_: T):
+            for a_, b_ in rws:
+                if t_ is a_:
+                    return b_
+            return None
+        comp = comp.map(rw)
+        masks = [m_.map(rw) for m_ in masks]
     if comp.op != "comp" or len(comp.args[2]) != 1 or comp.args[3] or \
             comp.args[1].op != "tuple" or len(comp.args[1].args) != 2:
         return undecided(f"pair construction not recognised: "
@@ -793,6 +841,18 @@ def _all_pairs_angle_search(ctx, f, r: Result, ext, masks):
     rep = roles["i"][1]
     okr = is_call_to(rep, "builtins.len") and rep.args[1] and \
         rep.args[1][0] is cand
+    if not okr and okc:
+        # the count written out: all later poses are n - (i + 1) many
+        from ..lib import linear
+        lr = linear(rep)
+        ln = linear(tm.call(tm.glob("builtins.len"), (POSES,), ()))
+        lo_ = linear(want_off)
+        if lr is not None and ln is not None and lo_ is not None:
+            want_n = dict(ln)
+            for k_, v_ in lo_.items():
+                want_n[k_] = want_n.get(k_, 0) - v_
+            want_n = {k_: v_ for k_, v_ in want_n.items() if v_}
+            okr = {k_: v_ for k_, v_ in lr.items() if v_} == want_n
     ctx.ob("C10.8", ext, bool(okr),
            "angle/all-pairs: R_i is paired with every candidate" if okr else
            f"angle/all-pairs: R_i is repeated {fmt(rep)[:60]} times, not "
